@@ -4,6 +4,8 @@ package main
 
 import (
 	"fmt"
+	"os"
+	"math/big"
 	"go/constant"
 	"go/token"
 	"go/types"
@@ -26,6 +28,14 @@ type SpecEnv struct {
 	fn      *ssa.Function // non-nil: identifiers may denote this function's parameters/locals
 	depth   int
 	macroLoop *loopInfo // inside a spec-function body: the loop of the invariant being translated (for freshl)
+	locSt     *State    // state from which source-level locals are read (old(...) switches the heap, not the locals)
+}
+
+func (env *SpecEnv) localsState() *State {
+	if env.locSt != nil {
+		return env.locSt
+	}
+	return env.cur
 }
 
 func (env *SpecEnv) enclosingLoop() *loopInfo {
@@ -95,6 +105,12 @@ func (env *SpecEnv) term(e SExpr) (Val, error) {
 			return Val{T: "true", S: SBool, Typ: boolT}, nil
 		}
 		return Val{T: "false", S: SBool, Typ: boolT}, nil
+	case *SFltLit:
+		r, ok := new(big.Rat).SetString(x.V)
+		if !ok {
+			return Val{}, fmt.Errorf("bad float literal %s", x.V)
+		}
+		return Val{T: env.ex.fltConst(r.RatString()), S: SFlt, Typ: types.Typ[types.Float64]}, nil
 	case *SStrLit:
 		return Val{T: vc.strLit(x.V), S: SStr, Typ: strT}, nil
 	case *SChrLit:
@@ -359,7 +375,7 @@ func (env *SpecEnv) loopLocal(name string) (Val, bool, error) {
 	vc := env.vc
 	li := env.loop
 	if li.rangeIdx != nil && (li.keyName == name || name == "$i") {
-		cur, ok := env.cur.locals[li.rangeIdx]
+		cur, ok := env.localsState().locals[li.rangeIdx]
 		if !ok {
 			return Val{}, false, fmt.Errorf("range index of loop %d not live", li.ordinal)
 		}
@@ -391,13 +407,22 @@ func (env *SpecEnv) loopLocal(name string) (Val, bool, error) {
 		return Val{}, false, nil
 	}
 	// find the alloc declared at obj.Pos()
-	for a, t := range env.cur.locals {
+	for a, t := range env.localsState().locals {
 		if a.Pos() == obj.Pos() {
 			et := a.Type().(*types.Pointer).Elem()
 			return Val{T: t, S: vc.sorts.sortOf(et), Typ: et}, true, nil
 		}
 	}
 	// heap-allocated (escaping) locals are not supported in invariants
+	if os.Getenv("BMVERIF_DEBUG_LOCALS") != "" {
+		fmt.Fprintf(os.Stderr, "loopLocal %s: obj at %v; candidates:", name, vc.eng.fset.Position(obj.Pos()))
+		for a := range env.cur.locals {
+			if a.Comment == name {
+				fmt.Fprintf(os.Stderr, " %s@%v", a.Name(), vc.eng.fset.Position(a.Pos()))
+			}
+		}
+		fmt.Fprintln(os.Stderr)
+	}
 	return Val{}, false, nil
 }
 
@@ -797,12 +822,9 @@ func (env *SpecEnv) call(x *SCall) (Val, error) {
 			return Val{}, fmt.Errorf("old takes one argument")
 		}
 		sub := env.child()
+		sub.locSt = env.localsState() // locals keep their current values; only heap reads go to the entry state
 		sub.cur = env.old
 		sub.results = nil
-		if env.loop != nil {
-			// old(local) at a loop: only parameters make sense; locals resolve against the entry state
-			sub.loop = nil
-		}
 		return sub.term(x.Args[0])
 	case "pre":
 		// pre(e): value of e when the enclosing loop was entered (loop invariants only)
@@ -932,7 +954,7 @@ func (env *SpecEnv) call(x *SCall) (Val, error) {
 		if v.S == SSlice {
 			t = "(sarr " + v.T + ")"
 		}
-		return Val{T: "(>= " + t + " " + env.ex.loopPreRef[env.enclosingLoop().header] + ")", S: SBool, Typ: boolT}, nil
+		return Val{T: "(and (>= " + t + " " + env.ex.loopPreRef[env.enclosingLoop().header] + ") (< " + t + " " + env.cur.nextRef + "))", S: SBool, Typ: boolT}, nil
 	case "fresh":
 		// fresh(r): reference r was not allocated at function entry
 		v, err := env.term(x.Args[0])
@@ -943,7 +965,8 @@ func (env *SpecEnv) call(x *SCall) (Val, error) {
 		if v.S == SSlice {
 			t = "(sarr " + v.T + ")"
 		}
-		return Val{T: "(>= " + t + " " + env.old.nextRef + ")", S: SBool, Typ: boolT}, nil
+		// allocated between the old state and the current one
+		return Val{T: "(and (>= " + t + " " + env.old.nextRef + ") (< " + t + " " + env.cur.nextRef + "))", S: SBool, Typ: boolT}, nil
 	}
 	if b, ok := builtinSpecFns[x.Fun]; ok {
 		if len(x.Args) != len(b.args) {
@@ -1124,9 +1147,9 @@ func (env *SpecEnv) splitGoal(e SExpr, name string) ([]namedFormula, error) {
 		}
 		if x.Fun == "old" && len(x.Args) == 1 {
 			sub := env.child()
+			sub.locSt = env.localsState()
 			sub.cur = env.old
 			sub.results = nil
-			sub.loop = nil
 			return sub.splitGoal(x.Args[0], name)
 		}
 	case *SQuant:
